@@ -285,6 +285,26 @@ class Layouts:
                 x = self.eval(a[0], shapes, args, tail_len)
                 y = self.eval(a[1], shapes, args, tail_len)
                 return max(x, y) if name == "max" else min(x, y)
+            if name in ("wrapping_neg", "trailing_zeros", "leading_zeros", "count_ones", "is_power_of_two", "next_power_of_two") and len(a) == 1 and path.startswith("<usize>"):
+                x = self.eval(a[0], shapes, args, tail_len)
+                if not isinstance(x, int):
+                    raise Unknown("integer method on a non-integer")
+                if name == "wrapping_neg":
+                    return (-x) & (self.umod - 1)
+                if name == "trailing_zeros":
+                    return self.bits if x == 0 else (x & -x).bit_length() - 1
+                if name == "leading_zeros":
+                    return self.bits - x.bit_length()
+                if name == "count_ones":
+                    return bin(x).count("1")
+                if name == "is_power_of_two":
+                    return int(x != 0 and x & (x - 1) == 0)
+                r = 1
+                while r < x:
+                    r <<= 1
+                if r >= self.umod:
+                    raise Panic()
+                return r
             if name == "saturating_mul" and len(a) == 2:
                 x = self.eval(a[0], shapes, args, tail_len)
                 y = self.eval(a[1], shapes, args, tail_len)
